@@ -54,6 +54,7 @@ namespace verif
     struct UpBlock
     {
         std::size_t off, size, align;
+        int         tag = 0; // who asked: 0 = the allocator under test, 1 = the harness itself (sibling memory)
     };
 
     struct Region
@@ -72,6 +73,7 @@ namespace verif
         std::vector<std::string>     events;      // since last take_events()
         long                         calls = 0, fail_at = -1;
         long                         n_alloc = 0, n_dealloc = 0, n_fail = 0;
+        int                          cur_tag = 0;
         std::vector<std::string>     errors; // ledger violations (double free, wrong size, unknown pointer)
 
         Region()
@@ -115,9 +117,10 @@ namespace verif
         }
         void* allocate(std::size_t size, std::size_t align)
         {
-            ++calls;
             char buf[96];
-            if (fail_at >= 0 && calls - 1 == fail_at)
+            if (cur_tag == 0)
+                ++calls; // only requests of the allocator under test count for failure injection
+            if (cur_tag == 0 && fail_at >= 0 && calls - 1 == fail_at)
             {
                 ++n_fail;
                 std::snprintf(buf, sizeof buf, "a:%zu:%zu:fail", size, align);
@@ -159,7 +162,7 @@ namespace verif
                     std::abort();
                 }
             }
-            outstanding.push_back({o, size, align});
+            outstanding.push_back({o, size, align, cur_tag});
             ++n_alloc;
             std::snprintf(buf, sizeof buf, "a:%zu:%zu:%zu", size, align, o);
             events.push_back(buf);
@@ -180,6 +183,13 @@ namespace verif
                     if (outstanding[i].size != size)
                         errors.push_back(std::string("size mismatch on release ") + buf);
                     auto b = outstanding[i];
+                    // C05: blocks go back in reverse order of acquisition (per requester)
+                    for (std::size_t j = i + 1; j < outstanding.size(); ++j)
+                        if (outstanding[j].tag == b.tag)
+                        {
+                            errors.push_back(std::string("block released out of order (a more recently acquired block is still outstanding) ") + buf);
+                            break;
+                        }
                     outstanding.erase(outstanding.begin() + long(i));
                     if (policy != 2 && b.off + b.size == lo)
                         lo = b.off; // top block: give the space back (keeps later blocks adjacent)
